@@ -528,6 +528,7 @@ func main() {
 	statusWriteFacts(&b) // F31 fact (jobctl_writes.go)
 	finishTimeFacts(&b)  // F30 fact (jobctl_finish.go)
 	hashIndexFacts(&b)   // C14 fact (hash_facts.go)
+	copiesFacts(&b)      // C14 C16 fact (copies_facts.go)
 	jcstatusFacts(&b)    // C15 facts (jcstatus.go)
 	taskfnFacts(&b)      // C08 C10 C11 C12 facts (taskfn_facts.go)
 	retryFacts(&b)       // C20 facts (retry_facts.go)
